@@ -13,7 +13,7 @@ open Ddo.Proto
 
 def parseFam (t : List String) : Option (Fam × List String) := do
   match t with
-  | "T" :: n :: b :: d :: e :: rm :: ub :: rk :: dm :: sl :: rest =>
+  | "T" :: n :: b :: d :: e :: rm :: ub :: rk :: dm :: sl :: iv :: rest =>
     let n ← nat? n; let b ← nat? b; let d ← nat? d
     let ne := n * b * d
     let ents ← ints? (rest.take (2 * ne))
@@ -22,8 +22,8 @@ def parseFam (t : List String) : Option (Fam × List String) := do
       | _ => []
     let imps := (rest.drop (2 * ne)).take (n * b)
     if ents.length ≠ 2 * ne ∨ imps.length ≠ n * b then none else
-    let rm ← nat? rm; let ub ← nat? ub; let rk ← nat? rk; let dm ← nat? dm; let sl ← int? sl
-    let T : TableDP := { n := n, B := b, D := d, embedDepth := e == "1", relaxMode := rm, rubMode := ub, rankMode := rk, domMode := dm, slack := sl, tab := pairs ents, imp := imps.map (· == "1") }
+    let rm ← nat? rm; let ub ← nat? ub; let rk ← nat? rk; let dm ← nat? dm; let sl ← int? sl; let iv ← int? iv
+    let T : TableDP := { n := n, B := b, D := d, embedDepth := e == "1", relaxMode := rm, rubMode := ub, rankMode := rk, domMode := dm, slack := sl, initVal := iv, tab := pairs ents, imp := imps.map (· == "1") }
     pure (.table T, rest.drop (2 * ne + n * b))
   | "K" :: n :: cap :: rub :: dom :: rest =>
     let n ← nat? n
